@@ -86,11 +86,14 @@ pub struct SinkSpec {
     pub react_default: React,
     /// credit mode (C14): a Pull is only sent while pulls_sent < messages_received
     pub credit: bool,
+    /// C15 only: the sink keeps pulling after it has received Terminate (from_iter must ignore that)
+    #[serde(default)]
+    pub pull_after_end: bool,
 }
 
 impl Default for SinkSpec {
     fn default() -> Self {
-        SinkSpec { react: vec![], react_default: React::Nothing, credit: false }
+        SinkSpec { react: vec![], react_default: React::Nothing, credit: false, pull_after_end: false }
     }
 }
 
@@ -180,6 +183,12 @@ pub enum Profile {
     PullCount,
     /// from_iter directly under a probe (n = 255 means an unbounded iterator)
     FromIterDirect,
+    /// share over one puppet that may greet late (used for C01 only: on the unchanged tree a sink that
+    /// pulls before the upstream has greeted makes share panic, which is outside C17's quantifier)
+    LateShare,
+    /// one operator (not share, not combine) directly over puppets, any of which may greet late
+    /// (beyond the stated quantifier, which has late greeters under merge! only; see DESIGN 12.6)
+    LateAny,
     /// puppet -> probe, no crate code (harness self-check)
     SelfCheck,
 }
@@ -225,13 +234,14 @@ struct Gen<'a, 'b> {
     puppets_only: bool,
     /// take(0) may be generated (only where no model or counting oracle assumes n >= 1)
     take_zero: bool,
+    late_everywhere: bool,
 }
 
 impl<'a, 'b> Gen<'a, 'b> {
     fn puppet(&mut self, late_ok: bool) -> Topo {
         let id = self.n_pup;
         self.n_pup += 1;
-        self.late_ok.push(late_ok);
+        self.late_ok.push(late_ok || self.late_everywhere);
         Topo::Puppet(id)
     }
     fn leaf(&mut self, late_ok: bool) -> Topo {
@@ -354,12 +364,12 @@ impl<'a, 'b> Gen<'a, 'b> {
             let react = (0..n)
                 .map(|_| d.pick(&[React::Pull, React::Nothing, React::Pull, React::Terminate, React::Error]))
                 .collect();
-            return SinkSpec { react, react_default, credit: true };
+            return SinkSpec { react, react_default, credit: true, pull_after_end: false };
         }
         let style = d.below(4);
         match style {
             0 => SinkSpec::default(),
-            1 => SinkSpec { react: vec![], react_default: React::Pull, credit: false },
+            1 => SinkSpec { react: vec![], react_default: React::Pull, credit: false, pull_after_end: false },
             2 => {
                 // passive (or puller) that disposes at one position
                 let base = d.pick(&[React::Nothing, React::Pull]);
@@ -367,7 +377,7 @@ impl<'a, 'b> Gen<'a, 'b> {
                 let t = d.pick(&[React::Terminate, React::Error, React::PullTerminate, React::PullError]);
                 let mut react = vec![base; k];
                 react.push(t);
-                SinkSpec { react, react_default: base, credit: false }
+                SinkSpec { react, react_default: base, credit: false, pull_after_end: false }
             }
             _ => {
                 let n = d.below(8);
@@ -384,7 +394,7 @@ impl<'a, 'b> Gen<'a, 'b> {
                 ];
                 let react = (0..n).map(|_| d.pick(&R)).collect();
                 let react_default = d.pick(&[React::Nothing, React::Pull]);
-                SinkSpec { react, react_default, credit: false }
+                SinkSpec { react, react_default, credit: false, pull_after_end: false }
             }
         }
     }
@@ -397,8 +407,9 @@ pub fn decode(profile: Profile, bytes: &[u8], max_steps: usize) -> Scenario {
         n_pup: 0,
         n_leaf: 0,
         late_ok: vec![],
-        puppets_only: matches!(profile, Profile::Single(_) | Profile::Dual(_) | Profile::Share | Profile::ShareNested),
+        puppets_only: matches!(profile, Profile::Single(_) | Profile::Dual(_) | Profile::Share | Profile::ShareNested | Profile::LateShare | Profile::LateAny),
         take_zero: matches!(profile, Profile::AnySingle | Profile::Composed),
+        late_everywhere: false,
     };
     let mut root_tuple = false;
     let mut sink_kind = SinkKind::Probe;
@@ -442,11 +453,11 @@ pub fn decode(profile: Profile, bytes: &[u8], max_steps: usize) -> Scenario {
                 }
             }
         }
-        Profile::Share | Profile::ShareNested => {
+        Profile::Share | Profile::ShareNested | Profile::LateShare => {
             n_sinks = 1 + g.d.below(3);
             attach_first = false;
             no_sync = n_sinks >= 2 && profile == Profile::Share;
-            Topo::Share(Box::new(g.puppet(false)))
+            Topo::Share(Box::new(g.puppet(profile == Profile::LateShare)))
         }
         Profile::ForEach => {
             sink_kind = SinkKind::ForEach;
@@ -475,6 +486,12 @@ pub fn decode(profile: Profile, bytes: &[u8], max_steps: usize) -> Scenario {
             } else {
                 g.op(ALL_OPS[k - 1], depth, false)
             }
+        }
+        Profile::LateAny => {
+            g.late_everywhere = true;
+            const OPS: [Op; 7] = [Op::Concat, Op::Map, Op::Filter, Op::Scan, Op::Take, Op::Skip, Op::Flatten];
+            let op = OPS[g.d.below(OPS.len())];
+            g.op(op, 0, true)
         }
         Profile::FromIterDirect => {
             let n = g.d.pick(&[3u8, 0, 1, 2, 5, 8, 64, 255]);
@@ -516,7 +533,10 @@ pub fn decode(profile: Profile, bytes: &[u8], max_steps: usize) -> Scenario {
     let late_ok = g.late_ok.clone();
     let puppets: Vec<PuppetSpec> =
         (0..n_pup).map(|i| g.puppet_spec(late_ok[i], pullcount, no_sync)).collect();
-    let sinks: Vec<SinkSpec> = (0..n_sinks).map(|_| g.sink_spec(pullcount)).collect();
+    let mut sinks: Vec<SinkSpec> = (0..n_sinks).map(|_| g.sink_spec(pullcount)).collect();
+    if profile == Profile::FromIterDirect {
+        sinks[0].pull_after_end = g.d.below(3) == 2;
+    }
     // schedule
     let mut schedule = vec![];
     let d = &mut *g.d;
@@ -541,7 +561,7 @@ pub fn decode(profile: Profile, bytes: &[u8], max_steps: usize) -> Scenario {
             schedule.push(Step::Pup { p: who as u8, owner, act });
         } else {
             let s = (who - n_pup) as u8;
-            let act = if matches!(profile, Profile::Share | Profile::ShareNested | Profile::Indep | Profile::Dual(_)) {
+            let act = if matches!(profile, Profile::Share | Profile::ShareNested | Profile::LateShare | Profile::Indep | Profile::Dual(_)) {
                 d.pick(&[
                     StepSAct::Attach,
                     StepSAct::Pull,
@@ -717,7 +737,7 @@ pub fn shrink_candidates(sc: &Scenario) -> Vec<Scenario> {
                 out.push(c);
             }
         };
-        push(SinkSpec { react: vec![], react_default: React::Nothing, credit: s.credit });
+        push(SinkSpec { react: vec![], react_default: React::Nothing, credit: s.credit, pull_after_end: s.pull_after_end });
         push(SinkSpec { react: vec![], ..s.clone() });
         push(SinkSpec { react_default: React::Nothing, ..s.clone() });
         for k in 0..s.react.len() {
